@@ -255,6 +255,7 @@ def run(rep, facts, tier):
     rule_09_7(rep, fx)
     rule_09_8(rep, fx)
     rule_09_9(rep, fx)
+    rule_range_bounds(rep, fx, 'R09.11')
     # R09.10: skipping an unusable change moves the frontier like a GAP does; the DataReader has to hear of it (seed C09f was reported by ./check C13 only)
     from rdv import report as _report
     _report.borrow(rep, facts, tier, 'C13', {'R13.3': 'R09.10'})
@@ -583,3 +584,66 @@ def _strip9(t):
     while isinstance(t, tuple) and t and t[0] in ('ref', 'deref', 'copy', 'move') and len(t) > 1 and isinstance(t[1], tuple):
         t = t[1]
     return t
+
+
+def rule_range_bounds(rep, fx, rid):
+    """BTreeMap::range panics when start > end, or start == end with both excluded. In the topic cache that happens with the mutex held: the poisoned lock stops every
+    reader of the topic and the receive thread (raised F30: the best-effort query between two wall-clock readings, after the clock was set back)."""
+    rep.rule(rid, 'legal range bounds in the topic cache: every BTreeMap::range((lo, hi)) in TopicCache (and its closures) whose two bounds are run-time values has hi = max(lo, ..) '
+                  '(for an included end) or max(lo + 1, ..) (both ends excluded), or lies behind an edge that orders the two; an Unbounded side needs nothing')
+    n = 0
+    for b in fx.bodies:
+        if 'structure::dds_cache::TopicCache::' not in b.key:
+            continue
+        og = None
+        for bb, t in b.calls():
+            if not callee_res(t).endswith('::range') or len(t['args']) < 2:
+                continue
+            og = og or Origins(b, summaries=True)
+            a = og.of_operand(t['args'][1], bb, 'term')
+            if b.kind == 'closure':
+                from rdv.core import resolve_captures
+                a = resolve_captures(fx, b, a)
+            if not (a[0] == 'agg' and a[1] == 'tuple' and len(a[2]) == 2):
+                continue
+            lo_b, hi_b = a[2]
+            if not (lo_b[0] == 'agg' and hi_b[0] == 'agg'):
+                continue
+            klo, khi = str(lo_b[1]).rsplit('::', 1)[-1], str(hi_b[1]).rsplit('::', 1)[-1]
+            if 'Unbounded' in (klo, khi):
+                continue
+            n += 1
+            lo, hi = lo_b[2][0], hi_b[2][0]
+            both_excl = klo == 'Excluded' and khi == 'Excluded'
+            ok = False
+            if hi[0] == 'call' and hi[1].endswith('cmp::max'):
+                for x in hi[2]:
+                    if not both_excl and _same9(x, lo):
+                        ok = True
+                    if both_excl and x[0] == 'call' and x[1].endswith('plus_1') and _same9(x[2][0], lo):
+                        ok = True
+            if not ok:
+                # a dominating comparison of the two
+                P = Pos(b)
+                for s_, t_, cond, lab in switch_edges(b, fx, og):
+                    if cond[0] == 'call' and cond[1].rsplit('::', 1)[-1] in ('lt', 'le', 'gt', 'ge') and len(cond[2]) == 2 and isinstance(lab, bool):
+                        x, y = cond[2]
+                        op = cond[1].rsplit('::', 1)[-1]
+                        if _same9(x, lo) and _same9(y, hi):
+                            good = (op in ('lt',) and lab) or (op == 'le' and lab and not both_excl) or (op == 'ge' and not lab) or (op == 'gt' and not lab and not both_excl)
+                        elif _same9(x, hi) and _same9(y, lo):
+                            good = (op in ('gt',) and lab) or (op == 'ge' and lab and not both_excl) or (op == 'le' and not lab) or (op == 'lt' and not lab and not both_excl)
+                        else:
+                            continue
+                        if good and P.every_path_passes(None, (bb, 'term'), via_edges=[(s_, t_)], from_entry=True):
+                            ok = True
+            fn = b.key.split('TopicCache::')[-1]
+            rep.check(ok, rid, '%s/range#%d' % (fn, n), '(%s(lo), %s(hi)) with hi >= lo%s by construction' % (klo, khi, ' + 1' if both_excl else ''),
+                      'TopicCache::%s ranges over (%s(%s), %s(%s)) without making sure the end is not before the start: BTreeMap::range panics with the topic cache locked when it is '
+                      '(e.g. two readings of the wall clock after the clock was set back), and the poisoned mutex stops every reader of the topic and the receive thread' %
+                      (fn, klo, term_str(lo)[:40], khi, term_str(hi)[:40]), b.where(bb))
+    rep.floor(rid, n, 2, 'two-sided range() calls in TopicCache')
+
+
+def _same9(a, b):
+    return _strip9(a) == _strip9(b)
